@@ -35,7 +35,7 @@ harness's key names; extra implementation keys are checked by the spec below -/
 def handle (inp impl : Json) : CaseResult :=
   if jstr inp "scene" == "bootnode" then handleBoot inp impl else
   let shape := jstr inp "bid_shape"
-  let wd : World := ⟨jbool inp "staked", jbool inp "allowed", shape == "" || shape == "valid" || shape == "padded-amount", jstr inp "engine" != "reject"⟩
+  let wd : World := ⟨jbool inp "staked", jbool inp "allowed", shape == "" || shape == "valid" || shape == "padded-amount" || shape == "window-empty" || shape == "window-reversed", jstr inp "engine" != "reject"⟩
   let o1 := scenario nodeWire wd
   -- a second request through the same nodes is handled like the first
   let k := if jbool inp "sibling" then 2 else 1
